@@ -17,7 +17,7 @@ import (
 
 // Op is one public API call of a file-building history (uniform fields, see spec/SmfWrite.tla BuildStep).
 type Op struct {
-	Op   string `json:"op"` // new tf nrs track add close smfadd
+	Op   string `json:"op"` // new tf nrs track add close smfadd write
 	Fmt  int    `json:"fmt"`
 	Kind string `json:"kind"` // metric | smpte
 	A    int    `json:"a"`
@@ -177,6 +177,8 @@ func execHistory(h []Op) *smf.SMF {
 			tr.Close(undigits(o.D))
 		case "smfadd":
 			s.Add(tr)
+		case "write":
+			s.WriteTo(io.Discard)
 		default:
 			hx.Die("unknown op", o.Op)
 		}
